@@ -48,7 +48,7 @@ Qed.
 
 Lemma tcmd_eqb_reflect a b : reflect (a = b) (tcmd_eqb a b).
 Proof.
-  destruct a as [w|w|d u| | |w|w], b as [w'|w'|d' u'| | |w'|w']; cbn; try (constructor; congruence).
+  destruct a as [w|w|d u| | |w|w|d w], b as [w'|w'|d' u'| | |w'|w'|d' w']; cbn; try (constructor; congruence).
   - destruct (str_eqb_spec w w') as [->|H]; constructor; congruence.
   - destruct (str_eqb_spec w w') as [->|H]; constructor; congruence.
   - destruct (str_eqb_spec d d') as [->|H]; cbn; [|constructor; congruence].
@@ -56,6 +56,8 @@ Proof.
     destruct (str_eqb_spec u u') as [->|H]; constructor; congruence.
   - destruct (str_eqb_spec w w') as [->|H]; constructor; congruence.
   - destruct (str_eqb_spec w w') as [->|H]; constructor; congruence.
+  - destruct (str_eqb_spec d d') as [->|H]; cbn; [|constructor; congruence].
+    destruct (str_eqb_spec w w') as [->|H]; constructor; congruence.
 Qed.
 
 (* ---------------------------------------------------------------------------------------------- *)
